@@ -123,8 +123,18 @@ def run_loop(ds, kind, rnd, uniq, stream, p2):
           [dict(e, d="s") for e in stream[:2]]
     spect.insert([cz.ev(e, Event) for e in sev])
     b = ds.create_bucket(bn, "t", "c", "h")
+    # half of the runs: a twin bucket in the same database is fed the very same stream, interleaved heartbeat by heartbeat
+    twin = ds.create_bucket(bn + "-twin", "t", "c", "h") if rnd.random() < 0.5 else None
     tr = [{"op": "start", "P": p2, "sp": [cz.proj(e, True) for e in spect.get(-1)]}]
     for h in stream:
+        if twin is not None:
+            tv = cz.ev(h, Event)
+            tl = twin.get(1)
+            tm = heartbeat_merge(tl[0], tv, cz.pul(p2)) if tl else None
+            if tm is not None:
+                twin.replace_last(tm)
+            else:
+                twin.insert(tv)
         hbv = cz.ev(h, Event)
         last = b.get(1)
         rec = {"op": "hb", "hb": h2(h), "has1": bool(last), "pre1": cz.proj(last[0], True) if last else {"id": -1, "ts": 0, "dur": 0, "d": "-"}}
@@ -140,6 +150,10 @@ def run_loop(ds, kind, rnd, uniq, stream, p2):
         tr.append(rec)
     red = heartbeat_reduce([cz.ev(h, Event) for h in stream], cz.pul(p2))
     tr.append({"op": "end", "stream": [h2(h) for h in stream], "reduced": [cz.proj(e) for e in red]})
+    if twin is not None:
+        # the twin must hold the same reduction (recorded as a second 'end' record over its own contents)
+        tr.append({"op": "twin", "stream": [h2(h) for h in stream], "st": [cz.proj(e, True) for e in twin.get(-1)]})
+        ds.delete_bucket(bn + "-twin")
     ds.delete_bucket(bn)
     ds.delete_bucket(sn)
     return tr
